@@ -95,7 +95,30 @@ func content(name string) string {
 	if len(auditSizes) > 0 && (strings.HasSuffix(name, ".asc") || strings.Contains(name, ".part")) {
 		n = int(auditSizes[len(name)%len(auditSizes)])
 	}
-	return "content of " + name + "\n" + strings.Repeat("x", n) + "\nend\n"
+	if strings.HasSuffix(name, ".asc") && len(auditSizes) == 0 {
+		return "" // an empty referenced file (a detached signature that was never written) is still a file to carry over
+	}
+	body := patterned(n)
+	if strings.Contains(name, ".debian.tar") {
+		// exactly one io.Copy buffer (32 KiB) in total
+		head := "content of " + name + "\n"
+		return head + patterned(32768-len(head)-len("\nend\n")) + "\nend\n"
+	}
+	return "content of " + name + "\n" + body + "\nend\n"
+}
+
+// patterned is n bytes in which every 8-byte cell carries its own offset, so blocks that are dropped, repeated or
+// written in the wrong order change the content and not only (or not even) the length.
+func patterned(n int) string {
+	if n <= 0 {
+		return ""
+	}
+	var sb strings.Builder
+	sb.Grow(n + 8)
+	for off := 0; sb.Len() < n; off += 8 {
+		fmt.Fprintf(&sb, "%07x\n", off)
+	}
+	return sb.String()[:n]
 }
 
 func md5hex(i int) string { return fmt.Sprintf("%032x", i+1) }
